@@ -412,10 +412,12 @@ def check_float_bounds(h: Harness):
     pairs = [(-3.66, 0.58), (-0.55, 3.06), (-2.71, 2.02), (-1.25, 0.95), (-4.57, -1.05), (0.1, 0.3), (0.0, 1.0), (9.0, 10.0)]
     # equal and neighbouring bounds that are not short binary fractions (an interpolation computed from two separately rounded
     # products can land one ulp outside), and bounds given as int literals (the result is a float all the same)
-    tight = [(0.9, 0.9), (-0.9, -0.9), (1 / 3, 1 / 3), (0.01, 0.01), (0.7, 0.7000000000000001), (-0.30000000000000004, -0.3), (0, 9), (-3, 3), (5, 5)]
+    tight = [(0.9, 0.9), (-0.9, -0.9), (1 / 3, 1 / 3), (0.01, 0.01), (0.7, 0.7000000000000001), (-0.30000000000000004, -0.3), (0, 9), (-3, 3), (5, 5),
+             # int-literal bounds beyond 2**53 that have no exact float form (the nearest float lies OUTSIDE the range)
+             (0, sys.maxsize), (0, 2**60 + 129), (-(2**53) - 1, 5), (-sys.maxsize, sys.maxsize), (-(2**60) - 129, -(2**60))]
     g = grammar()
     for lo, hi in pairs + tight:
-        genes = (0, 1, 2, 10, 1024, 2048, sys.maxsize) if (lo, hi) in pairs else tuple(range(0, 1026)) + (2048, 2049, sys.maxsize)
+        genes = (0, 1, 2, 10, 1024, 2048, sys.maxsize) if (lo, hi) in pairs else tuple(range(0, 1026)) + (2048, 2049, sys.maxsize, sys.maxsize - 1, sys.maxsize - 2, sys.maxsize // 2)
         for gene in genes:
             sources = [("ge.ListWrapper", lambda: GEListWrapper([gene, gene, gene])),
                        ("stackgggp.ListWrapper", lambda: StackListWrapper([gene, gene, gene])),
